@@ -214,7 +214,7 @@ class CircularRecord(SeqRecord):
                         )
                     else:
                         _newloc.append(part)
-                newloc = _newloc[0] if len(_newloc) == 1 else CompoundLocation(_newloc)
+                newloc = _newloc[0] if len(_newloc) == 1 else CompoundLocation(_newloc, operator=loc.operator)
             newfeats.append(
                 SeqFeature(
                     location=newloc,
